@@ -419,7 +419,7 @@ def check_rep(rep, tier, seed):
             except Exception as ex:  # noqa: BLE001  an exception escaping a legal call is a verdict
                 import traceback
 
-                bad = ("exception", "%s escaped: %s" % (type(ex).__name__, traceback.format_exc()[-600:]))
+                bad = ("exception", "%s escaped from %s: %s" % (type(ex).__name__, traceback.extract_tb(ex.__traceback__)[-1].name, str(ex)[:300]))
             n += 1
             outcomes[c["rep"]["out"]] = outcomes.get(c["rep"]["out"], 0) + 1
             if len(c["ms"]) > 1:
@@ -866,7 +866,14 @@ def run(rep, tier, seed):
         "temperature-group bounds are never hit exactly (the block temperature is a float quotient); burnup bounds are hit exactly",
         "blocks: HexBlock with two solid Custom-material Circle components (areas 2 and 3); atomic weights of U235/U238/FE56/NA23 set in-process to 2/3/5/7 "
         "while representatives are created by component (mass-weighted component temperature); everything else is weight-free",
-        "not modelled: blueprint-only blocks (_getMissingBlueprintBlocks), pre-generated cross sections, the 1-D cylinder/slab collections, lumped fission products",
+        "1-D cylinder option: copy of the candidate with the median block-average temperature, per-component averages with volume weights; "
+        "1-D slab option: the same on blocks of Rectangle components stored in one order, no lattice component, no nuclide temperatures",
+        "environment group: the temperature isotope comes from the settings found for the block's current key (its own, else the lowest lower "
+        "letter of the type, else the default U238); no isotope -> temperature group 0",
+        "lumped fission products: a member may carry a collection; the new block carries the one of its source (median: a duplicate)",
+        "component storage order: blocks may store their components in any order (two components: both orders; three components: all six)",
+        "not modelled: blueprint-only blocks (_getMissingBlueprintBlocks), pre-generated cross sections, the duct-heterogeneous cylinder "
+        "variant, slab blocks with a lattice component or reversed component order, averaging of lumped-fission-product yields",
     )
 
 
@@ -1016,6 +1023,60 @@ def selftest():
         nv = nd.T * np.array(fracs) * vol
         return sum((nv * np.array([c.temperatureInC for c in comps])).T), sum(nv.T)
 
+    CYL, SLAB = xsgm.CylindricalComponentsAverageBlockCollection, xsgm.SlabComponentsAverageBlockCollection
+
+    def env_stale_temp_group(self, blockList):
+        """seed 2: tempGroupVal initialised once, outside the per-block loop"""
+        if not self._envGroupUpdatesEnabled:
+            return
+        numBuGroups = len(self._buGroupBounds)
+        if numBuGroups == 1 and len(self._tempGroupBounds) == 1:
+            return
+        buGroupVal = tempGroupVal = 0
+        for block in blockList:
+            bu = block.p.percentBu
+            for buIndex, upperBu in enumerate(self._buGroupBounds):
+                if bu <= upperBu:
+                    buGroupVal = buIndex
+                    isotope = self._initializeXsID(block.getMicroSuffix()).xsTempIsotope
+                    if isotope and len(self._tempGroupBounds) > 1:
+                        tempC = xsgm.getBlockNuclideTemperature(block, isotope)
+                        for tempIndex, upperTemp in enumerate(self._tempGroupBounds):
+                            if tempC <= upperTemp:
+                                tempGroupVal = tempIndex
+                                break
+                    block.p.envGroupNum = tempGroupVal * numBuGroups + buGroupVal
+                    break
+
+    def make_weights_over_all(base):
+        def mutant(self):
+            """seed 3: bWeights over every member, zipped with the candidates' components"""
+            repBlock = self._getNewBlock()
+            bWeights = [self.getWeight(b) for b in self]
+            repBlock.p.percentBu = self._calcWeightedBurnup()
+            componentsInOrder = self._orderComponentsInGroup(repBlock)
+            for c, allSimilarComponents in zip(sorted(repBlock) if base is CYL else repBlock, componentsInOrder):
+                allNucsNames, densities = self._getAverageComponentNucs(allSimilarComponents, bWeights)
+                for nuc, aDensity in zip(allNucsNames, densities):
+                    c.setNumberDensity(nuc, aDensity)
+            if base is CYL:
+                self.calcAvgNuclideTemperatures()
+                return repBlock
+            return self._removeLatticeComponents(repBlock)
+        return mutant
+
+    def comp_dens_unsorted(self, compIndex):
+        """seed 5: members' components picked by storage index, the new block's by sorted index"""
+        nuclides = self.allNuclidesInProblem
+        blocks = self.getCandidateBlocks()
+        weights = np.array([self.getWeight(b) for b in blocks])
+        weights /= weights.sum()
+        comps = [b.getComponents()[compIndex] for b in blocks]
+        return dict(zip(nuclides, weights.dot([c.getNuclideNumberDensities(nuclides) for c in comps])))
+
+    def cyl_select_first(self):
+        return self.getCandidateBlocks()[0]
+
     def new_block_no_copy(self):
         return self.getCandidateBlocks()[0]
 
@@ -1094,6 +1155,11 @@ def selftest():
         ("_checkBlockSimilarity always true (by component despite different flags)", lambda: P(AVG, "_checkBlockSimilarity", similarity_always)),
         ("_checkValidWeightingFactors looks at all members, not the candidates", lambda: P(BC, "_checkValidWeightingFactors", weight_check_all_members)),
         ("getBlockNuclideTemperatureAvgTerms without the trace for zero densities", lambda: P(xsgm, "getBlockNuclideTemperatureAvgTerms", temp_terms_no_trace)),
+        ("seed 2: _updateEnvironmentGroups keeps the previous block's temperature group", lambda: P(MGR, "_updateEnvironmentGroups", env_stale_temp_group)),
+        ("seed 3: 1-D cylinder weights taken over all members", lambda: P(CYL, "_makeRepresentativeBlock", make_weights_over_all(CYL))),
+        ("1-D slab weights taken over all members", lambda: P(SLAB, "_makeRepresentativeBlock", make_weights_over_all(SLAB))),
+        ("seed 5: _getAverageComponentNumberDensities uses the storage order of the members", lambda: P(AVG, "_getAverageComponentNumberDensities", comp_dens_unsorted)),
+        ("1-D cylinder copies the first candidate, not the median-temperature one", lambda: P(CYL, "_selectCandidateBlock", cyl_select_first)),
         ("_getNewBlock returns the first candidate itself (core block modified)", lambda: P(BC, "_getNewBlock", new_block_no_copy)),
         ("_checkValidWeightingFactors accepts mixed zero/non-zero flux", lambda: P(BC, "_checkValidWeightingFactors", no_weight_check)),
         ("_updateEnvironmentGroups: bu < upper instead of <=", lambda: P(MGR, "_updateEnvironmentGroups", env_strict_bound)),
